@@ -52,6 +52,14 @@ class Scatter(object):
 
         self.xys = np.column_stack((self.xdata, self.ydata))
 
+        # Catalog rows are sorted by structure identifier, but the identifiers
+        # need not be 0..N-1 (e.g. after pruning): map between the two
+        if '_idx' in getattr(catalog, 'colnames', []):
+            self._row_idx = [int(i) for i in catalog['_idx']]
+        else:
+            self._row_idx = list(range(len(self.xdata)))
+        self._idx_row = dict((idx, row) for row, idx in enumerate(self._row_idx))
+
         self.x_column_name = xaxis
         self.y_column_name = yaxis
 
@@ -91,7 +99,7 @@ class Scatter(object):
             indices = np.where(p.contains_points(self.xys) &
                                ~np.isnan(self.xdata) &
                                ~np.isnan(self.ydata))[0]
-            selected_structures = [self.dendrogram[i] for i in indices]
+            selected_structures = [self.dendrogram[self._row_idx[i]] for i in indices]
 
             if len(selected_structures) == 0:
                 selected_structures = [None]
@@ -125,9 +133,9 @@ class Scatter(object):
             self.fig.canvas.draw()
             return
         if self.hub.select_subtree[selection_id]:
-            selected_indices = [leaf.idx for leaf in struct.descendants + [struct]]
+            selected_indices = [self._idx_row[leaf.idx] for leaf in struct.descendants + [struct]]
         else:
-            selected_indices = [leaf.idx for leaf in structures]
+            selected_indices = [self._idx_row[leaf.idx] for leaf in structures]
 
         self.lines2d[selection_id] = self.axes.plot(
             self.xdata[selected_indices],
